@@ -81,8 +81,11 @@ public:
 
 private:
     struct Session {
-        SocketHandle socket{INVALID_SOCKET_HANDLE};
+        // written by whoever closes the session, read by every sender: atomic
+        std::atomic<SocketHandle> socket{INVALID_SOCKET_HANDLE};
+        // replaced on key rotation while the reader and senders use it: guarded by key_mutex
         std::array<std::uint8_t, 32> key{};
+        mutable std::mutex key_mutex;
         std::string endpoint;
         std::thread reader;
         std::atomic<bool> running{false};
